@@ -80,51 +80,53 @@ type fnExec struct {
 	safetyChecks   bool
 
 	// current block context
-	curR      Term
-	sentinels []string
-	sliceData map[ssa.Value]Sl
-	hookFired map[string]bool
-	prevStored SV
+	curR              Term
+	sentinels         []string
+	sliceData         map[ssa.Value]Sl
+	hookFired         map[string]bool
+	prevStored        SV
 	postsAssumedNoted bool
-	preAssumed bool
-	lemmasUsed map[string]bool
-	st        *State
-	live      bool
-	entry     *State
+	preAssumed        bool
+	lemmasUsed        map[string]bool
+	st                *State
+	live              bool
+	entry             *State
 
-	paramEntry    map[string]SV
-	loops         map[*ssa.BasicBlock]*loopInfo
-	inEdges       map[*ssa.BasicBlock][]edge
-	exits         []exitRec
-	oblCount      map[string]int
-	sharedMut     map[ssa.Value]bool
-	cellNames     map[string][]ssa.Value
-	strConsts     map[string]Term
-	fltConsts     map[string]Term
-	needs         map[string]bool
-	usedAxioms    map[string]bool
-	unspecCallees map[string]bool
-	externUsed    map[string]bool
-	contractsUsed map[string]bool
-	assumedNotes  []string
-	ghostTypes    map[string]string
-	ranges        map[*ssa.Range]*rangeState
-	rangeNames    map[string]*rangeState
-	inputConsts   []string
-	inputLeaves   []inputLeaf
-	tablesUsed    map[string]bool
-	replayParams  []*replayParam
-	replayTerms   []string
-	sliceTables   map[ssa.Value]*sliceTable
-	refHeaps      map[string]bool
-	havocked      []string
-	macros        map[string]bool
-	exhaustOnly   bool
-	backEdgeFrom  *ssa.BasicBlock
-	curCall       *ssa.CallCommon
-	exitTag       string
-	pruned        int
-	caseIdx       int // -1: no case split; k: verifying case k of the contract's `cases`
+	paramEntry     map[string]SV
+	loops          map[*ssa.BasicBlock]*loopInfo
+	inEdges        map[*ssa.BasicBlock][]edge
+	exits          []exitRec
+	inlining       int
+	inlinedHelpers map[string]bool
+	oblCount       map[string]int
+	sharedMut      map[ssa.Value]bool
+	cellNames      map[string][]ssa.Value
+	strConsts      map[string]Term
+	fltConsts      map[string]Term
+	needs          map[string]bool
+	usedAxioms     map[string]bool
+	unspecCallees  map[string]bool
+	externUsed     map[string]bool
+	contractsUsed  map[string]bool
+	assumedNotes   []string
+	ghostTypes     map[string]string
+	ranges         map[*ssa.Range]*rangeState
+	rangeNames     map[string]*rangeState
+	inputConsts    []string
+	inputLeaves    []inputLeaf
+	tablesUsed     map[string]bool
+	replayParams   []*replayParam
+	replayTerms    []string
+	sliceTables    map[ssa.Value]*sliceTable
+	refHeaps       map[string]bool
+	havocked       []string
+	macros         map[string]bool
+	exhaustOnly    bool
+	backEdgeFrom   *ssa.BasicBlock
+	curCall        *ssa.CallCommon
+	exitTag        string
+	pruned         int
+	caseIdx        int // -1: no case split; k: verifying case k of the contract's `cases`
 }
 
 func (fx *fnExec) declare(name, sort string) {
@@ -883,6 +885,7 @@ func (fx *fnExec) analyzeLoops() error {
 			li.ordinal = i + 1
 		}
 	}
+	fx.remapLoops(lis)
 	for _, li := range lis {
 		if fx.ctr != nil {
 			li.spec = fx.ctr.Loops[li.ordinal]
@@ -1146,11 +1149,17 @@ func (fx *fnExec) run() (err error) {
 		for _, in := range b.Instrs {
 			if a, ok := in.(*ssa.Alloc); ok && a.Comment != "" {
 				fx.cellNames[a.Comment] = append(fx.cellNames[a.Comment], a)
+				if cn := fx.v.contractName(fn, a.Comment); cn != a.Comment {
+					fx.cellNames[cn] = append(fx.cellNames[cn], a)
+				}
 			}
 		}
 	}
 	for _, fv := range fn.FreeVars {
 		fx.cellNames[fv.Name()] = append(fx.cellNames[fv.Name()], fv)
+		if cn := fx.v.contractName(fn, fv.Name()); cn != fv.Name() {
+			fx.cellNames[cn] = append(fx.cellNames[cn], fv)
+		}
 	}
 	fx.st = newState()
 	fx.curR = tTrue
@@ -1168,14 +1177,14 @@ func (fx *fnExec) run() (err error) {
 		if fx.ctr != nil && fx.caseIdx >= 0 && fx.caseIdx < len(fx.ctr.Cases) {
 			switch ce := fx.ctr.Cases[fx.caseIdx].E.(type) {
 			case EIdent:
-				if ce.Name == p.Name() {
+				if ce.Name == p.Name() || ce.Name == fx.v.contractName(fn, p.Name()) {
 					if sc, ok := v.(Sc); ok && sc.T.So == SBool {
 						fx.assumps = append(fx.assumps, "(assert "+sc.T.S+")")
 						v = Sc{tTrue, sc.Typ}
 					}
 				}
 			case EUn:
-				if id, ok := ce.X.(EIdent); ok && ce.Op == "!" && id.Name == p.Name() {
+				if id, ok := ce.X.(EIdent); ok && ce.Op == "!" && (id.Name == p.Name() || id.Name == fx.v.contractName(fn, p.Name())) {
 					if sc, ok := v.(Sc); ok && sc.T.So == SBool {
 						fx.assumps = append(fx.assumps, "(assert (not "+sc.T.S+"))")
 						v = Sc{tFalse, sc.Typ}
@@ -1192,6 +1201,7 @@ func (fx *fnExec) run() (err error) {
 		fx.assumeAlive(v)
 		fx.vals[p] = v
 		fx.paramEntry[p.Name()] = v
+		fx.paramEntry[fx.v.contractName(fn, p.Name())] = v
 		fx.paramEntry[fmt.Sprintf("arg%d", i)] = v
 	}
 	// free variables that are not pointers (captured by value: rare)
@@ -1833,6 +1843,7 @@ func (fx *fnExec) infeasible(cond Term) bool {
 // phi has at the loop head (entry value before the cut, havocked value after); otherwise the value flowing in
 // along the back edge from block `from`.
 func (fx *fnExec) bindPhis(env *SpecEnv, li *loopInfo, from *ssa.BasicBlock) {
+	fx.bindRangeKey(env, li)
 	for k, phi := range li.phis {
 		name := fmt.Sprintf("phi%d_%d", li.ordinal, k+1)
 		if from == nil {
